@@ -178,8 +178,9 @@ impl Encode for ChunkEncoder {
         let id: usize = record.args().to_string().parse()?;
         self.order.lock().unwrap().push(id);
         side_fire(1);
-        for ch in &self.table[id] {
-            w.write_all(ch)?;
+        for (k, ch) in self.table[id].iter().enumerate() {
+            // every entry point of io::Write in turn (write_all, write, write_vectored, write_fmt)
+            vh::util::write_varied(w, ch, id + k)?;
         }
         if ENC_FAIL.swap(false, Ordering::SeqCst) {
             anyhow::bail!("scripted encoder failure");
@@ -480,8 +481,77 @@ impl Drop for ClockGuard {
     }
 }
 
+/// case ( 99 size ): a SPARSE pre-existing log file of `size` bytes (no data blocks are allocated), the real
+/// SizeTrigger with limit size + 10, the delete roller, append mode; two records of 5 and 10 bytes.
+/// result ( (shown disk fired) (shown disk fired) err ) with `shown` = LogFile::len_estimate() at the policy's
+/// consultation, `disk` = metadata().len() at that moment, fired = the real trigger's answer;
+/// ( ) when the file system refuses a file of that size.
+fn run_huge(size: u64) -> Val {
+    #[derive(Debug)]
+    struct Probe {
+        inner: SizeTrigger,
+        log: Arc<Mutex<Vec<Val>>>,
+    }
+    impl Trigger for Probe {
+        fn trigger(&self, file: &log4rs::append::rolling_file::LogFile) -> anyhow::Result<bool> {
+            let disk = std::fs::metadata(file.path()).map(|m| m.len()).unwrap_or(0);
+            let fired = self.inner.trigger(file)?;
+            self.log.lock().unwrap().push(Val::L(vec![
+                Val::N(file.len_estimate() as u128),
+                Val::N(disk as u128),
+                Val::bool(fired),
+            ]));
+            Ok(fired)
+        }
+        fn is_pre_process(&self) -> bool {
+            false
+        }
+    }
+    #[derive(Debug)]
+    struct Fixed;
+    impl Encode for Fixed {
+        fn encode(&self, w: &mut dyn EncWrite, record: &log::Record) -> anyhow::Result<()> {
+            let n: usize = record.args().to_string().parse()?;
+            w.write_all(&vec![b'x'; n])?;
+            Ok(())
+        }
+    }
+    let tmp = tempfile::tempdir().unwrap();
+    let path = tmp.path().join("cur.log");
+    {
+        let f = std::fs::File::create(&path).unwrap();
+        if f.set_len(size).is_err() {
+            return Val::L(vec![]);
+        }
+    }
+    let log = Arc::new(Mutex::new(Vec::new()));
+    let policy = CompoundPolicy::new(
+        Box::new(Probe { inner: SizeTrigger::new(size + 10), log: log.clone() }),
+        Box::new(DeleteRoller::new()),
+    );
+    let app = match RollingFileAppender::builder().append(true).encoder(Box::new(Fixed)).build(&path, Box::new(policy)) {
+        Ok(a) => a,
+        Err(_) => return Val::L(vec![]),
+    };
+    let mut err = 0u128;
+    for n in [5usize, 10] {
+        if app
+            .append(&log::Record::builder().level(log::Level::Info).args(format_args!("{}", n)).build())
+            .is_err()
+        {
+            err += 1;
+        }
+    }
+    let mut out = std::mem::take(&mut *log.lock().unwrap());
+    out.push(Val::N(err));
+    Val::L(out)
+}
+
 pub fn run(case: &Val) -> Val {
     let c = case.l();
+    if let Val::N(99) = c[0] {
+        return run_huge(c[1].n() as u64);
+    }
     let _clock_guard = ClockGuard;
     if c[0].l()[0].n() == 3 {
         std::env::set_var("TZ", "UTC");
